@@ -122,7 +122,9 @@ def check(constraints, timeout_ms=20000, use_cvc5=True, cvc5_timeout_s=30, extra
     STATS['z3_n'] += 1
     data = _read_all(r, min(z3_deadline, t0 + CVC5_AFTER_S)) if use_cvc5 else _read_all(r, z3_deadline)
     cv = None
+    cv_started = False
     if data is None and use_cvc5:
+        cv_started = True
         # z3 still running: start cvc5 alongside
         s = z3.Solver()
         for c in constraints:
@@ -193,8 +195,19 @@ def check(constraints, timeout_ms=20000, use_cvc5=True, cvc5_timeout_s=30, extra
                 return 'unsat', None, 'z3', dt
         except ValueError:
             pass
+    if use_cvc5 and cv_started is False:
+        # z3 gave up quickly: give cvc5 its turn
+        sv = z3.Solver()
+        for c in constraints:
+            sv.add(c)
+        t1 = time.time()
+        v, out = cvc5_check(sv.to_smt2(), cvc5_timeout_s)
+        STATS['cvc5_n'] += 1
+        STATS['cvc5_s'] += time.time() - t1
+        if v in ('sat', 'unsat'):
+            return v, None, 'cvc5', time.time() - t0
     STATS['unknown'] += 1
-    return 'unknown', None, 'z3', dt
+    return 'unknown', None, 'z3', time.time() - t0
 
 
 def feasible(constraints, timeout_ms=3000):
